@@ -3,6 +3,7 @@ package main
 import (
 	"context"
 	"fmt"
+	"github.com/tetratelabs/wazero/sys"
 	"os"
 	"os/exec"
 	"runtime"
@@ -62,6 +63,136 @@ func targeted() {
 	}
 	stackGrowth()
 	reentrantRecursion()
+	failedStartKeepsWrites()
+}
+
+// failedStartKeepsWrites: an instantiation that fails in its START function has already applied its active element
+// and data segments to what it imported (those writes persist, by specification), and the instances it wrote into
+// stay usable: after collections and heap churn the owner's call_indirect through the slots a failed instance wrote
+// still runs that function - for every way a start function can fail (each trap kind, host panic, exit).  Runs in
+// a child: a crash is a verdict.
+func failedStartKeepsWrites() {
+	for _, e := range both {
+		cmd := hx.Supervised(exec.Command(os.Args[0], "-child", "failedstart:"+e))
+		cmd.Env = append(os.Environ(), "GOMEMLIMIT=2GiB")
+		out, err := cmd.CombinedOutput()
+		rep.Case("failed-start-keeps-writes/" + e)
+		o := string(out)
+		in := map[string]any{"engine": e, "program": "owner exports a 16-slot funcref table and call(i) = call_indirect i; plugin k imports the table, puts its $f (returns 1000+k) into slot k by an active element segment and fails in its start function (kind k); then GC and heap churn; owner.call(k) must be 1000+k"}
+		switch {
+		case strings.Contains(o, "SETUP"):
+			hx.Fatal("failedstart child: %s", o)
+		case err != nil && !strings.Contains(o, "RESULT"):
+			rep.Violate(hx.Violation{Kind: "impl-violation", Signature: "C06:process-crash-after-failed-start:" + e,
+				What: "the process died after instantiations that failed in their start function (the owner of the table they wrote into is not usable): " + firstLineOf(o), Input: in, Actual: clipS(o, 1500)})
+		case !strings.Contains(o, "RESULT ok"):
+			rep.Violate(hx.Violation{Kind: "impl-violation", Signature: "C06:table-entry-of-failed-instance-unusable:" + e,
+				What: "a table entry written by an instance whose start function failed does not call that function any more after a GC: " + firstLineOf(o), Input: in, Actual: clipS(o, 1500)})
+		default:
+			rep.Count("targeted:failed-start-keeps-writes:" + e + ":ok")
+		}
+	}
+}
+
+func firstLineOf(s string) string {
+	for _, l := range strings.Split(s, "\n") {
+		if strings.HasPrefix(l, "BAD") || strings.Contains(l, "fatal error") || strings.Contains(l, "fault") {
+			return strings.TrimSpace(l)
+		}
+	}
+	return clipS(strings.TrimSpace(s), 200)
+}
+
+func clipS(s string, n int) string {
+	if len(s) > n {
+		return s[:n]
+	}
+	return s
+}
+
+func failedStartChild(engine string) {
+	ctx := context.Background()
+	var rc wazero.RuntimeConfig
+	if engine == "compiler" {
+		rc = wazero.NewRuntimeConfigCompiler()
+	} else {
+		rc = wazero.NewRuntimeConfigInterpreter()
+	}
+	rt := wazero.NewRuntimeWithConfig(ctx, rc)
+	one := []api.ValueType{api.ValueTypeI32}
+	_, err := rt.NewHostModuleBuilder("env").
+		NewFunctionBuilder().WithGoModuleFunction(api.GoModuleFunc(func(ctx context.Context, m api.Module, s []uint64) { panic(fmt.Errorf("host error %d", s[0])) }), one, one).Export("pe").
+		NewFunctionBuilder().WithGoModuleFunction(api.GoModuleFunc(func(ctx context.Context, m api.Module, s []uint64) {
+		m.CloseWithExitCode(ctx, uint32(s[0]))
+		panic(sys.NewExitError(uint32(s[0])))
+	}), one, one).Export("ex").Instantiate(ctx)
+	if err != nil {
+		fmt.Println("SETUP", err)
+		os.Exit(3)
+	}
+	ow := wb.New()
+	ow.Table(16, nil)
+	ow.M.ExportSection = append(ow.M.ExportSection, wasm.Export{Name: "tab", Type: wasm.ExternTypeTable, Index: 0})
+	ti := ow.TypeIdx(nil, []byte{i32})
+	ow.AddFunc(wb.Func{Params: []byte{i32}, Results: []byte{i32}, Export: "call", Body: wb.Cat(wb.LocalGet(0), wb.Op(wasm.OpcodeCallIndirect), wb.U32(ti), wb.U32(0))})
+	owner, err := rt.InstantiateWithConfig(ctx, ow.Bytes(), wazero.NewModuleConfig().WithName("owner"))
+	if err != nil {
+		fmt.Println("SETUP", err)
+		os.Exit(3)
+	}
+	fails := [][]byte{
+		wb.Op(wasm.OpcodeUnreachable),
+		wb.Cat(wb.I32Const(1), wb.I32Const(0), wb.Op(wasm.OpcodeI32DivU), wb.Op(wasm.OpcodeDrop)),
+		wb.Cat(wb.I32Const(65536), wb.MemArg(wasm.OpcodeI32Load, 2, 0), wb.Op(wasm.OpcodeDrop)),
+		wb.Cat(wb.I32Const(7), wb.Call(0), wb.Op(wasm.OpcodeDrop)),                    // host panic
+		wb.Cat(wb.I32Const(3), wb.Call(1), wb.Op(wasm.OpcodeDrop)),                    // exit
+		wb.Cat(wb.I32Const(15), wb.Op(wasm.OpcodeCallIndirect), wb.U32(0), wb.U32(0)), // null slot (type 0 = ()->() is added first below)
+	}
+	n := 0
+	for round := 0; round < 2; round++ {
+		for k, fail := range fails {
+			slot := round*len(fails) + k
+			m := wb.New()
+			m.TypeIdx(nil, nil) // type 0
+			pe := m.ImportFunc("env", "pe", []byte{i32}, []byte{i32})
+			ex := m.ImportFunc("env", "ex", []byte{i32}, []byte{i32})
+			_, _ = pe, ex
+			m.M.ImportSection = append(m.M.ImportSection, wasm.Import{Type: wasm.ExternTypeTable, Module: "owner", Name: "tab", DescTable: wasm.Table{Min: 16, Type: wasm.RefTypeFuncref}})
+			one := uint32(1)
+			m.Memory(1, &one, false, "")
+			f := m.AddFunc(wb.Func{Results: []byte{i32}, Body: wb.I32Const(int32(1000 + slot))})
+			st := m.AddFunc(wb.Func{Body: fail})
+			m.M.StartSection = &st
+			bin := m.BytesWithSegments([]wb.Elem{{Offset: int32(slot), Init: []int64{int64(f)}}})
+			if _, err := rt.InstantiateWithConfig(ctx, bin, wazero.NewModuleConfig().WithName(fmt.Sprintf("plugin%d", slot))); err == nil {
+				fmt.Println("SETUP plugin did not fail", slot)
+				os.Exit(3)
+			}
+			n++
+		}
+		for i := 0; i < 4; i++ {
+			runtime.GC()
+		}
+		var keep [][]byte
+		for i := 0; i < 3000; i++ {
+			keep = append(keep, make([]byte, 64<<(i%8)))
+		}
+		runtime.GC()
+		runtime.KeepAlive(keep)
+		bad := 0
+		for slot := 0; slot < n; slot++ {
+			res, err := owner.ExportedFunction("call").Call(ctx, uint64(slot))
+			if err != nil || len(res) != 1 || res[0] != uint64(1000+slot) {
+				bad++
+				fmt.Printf("BAD round %d: owner.call(%d) = %v, %v; the failed plugin's element segment put a function returning %d there\n", round, slot, res, err, 1000+slot)
+			}
+		}
+		if bad > 0 {
+			fmt.Println("RESULT bad")
+			return
+		}
+	}
+	fmt.Println("RESULT ok")
 }
 
 // stackGrowth: (tie B) after an unbounded recursion the real len(stack) is the last element of the
